@@ -37,7 +37,7 @@ def cells(tier, seed):
 
 
 def explore_opts(params, tier):
-    return {"timeout_s": 2.0 if tier == "quick" else 60.0, "max_paths": 4, "norm_first": True, "path_budget_s": 120.0,
+    return {"timeout_s": 2.0 if tier == "quick" else 20.0, "max_paths": 4, "norm_first": True, "path_budget_s": 120.0,
             "engine_opts": {"cut_sites": ("make_sparse_from_indices_and_values",)}}
 
 
